@@ -1,8 +1,10 @@
 package rig
 
 import (
+	"fmt"
 	"runtime"
 	"sync"
+	"sync/atomic"
 )
 
 // MinFail keeps the smallest failing point of a parallel enumeration (the sweep's
@@ -13,21 +15,19 @@ type MinFail struct {
 	at   uint64
 	err  error
 	data interface{}
+	flag int32
 }
 
 func (m *MinFail) Report(at uint64, err error, data interface{}) {
 	m.mu.Lock()
 	if !m.has || at < m.at {
 		m.has, m.at, m.err, m.data = true, at, err, data
+		atomic.StoreInt32(&m.flag, 1)
 	}
 	m.mu.Unlock()
 }
 
-func (m *MinFail) Failed() bool {
-	m.mu.Lock()
-	defer m.mu.Unlock()
-	return m.has
-}
+func (m *MinFail) Failed() bool { return atomic.LoadInt32(&m.flag) != 0 }
 
 func (m *MinFail) Get() (uint64, error, interface{}) {
 	m.mu.Lock()
@@ -35,8 +35,23 @@ func (m *MinFail) Get() (uint64, error, interface{}) {
 	return m.at, m.err, m.data
 }
 
-// ParChunks calls f(lo, hi) for consecutive chunks of [0, n) on all cores.
-func ParChunks(n, chunk uint64, f func(lo, hi uint64)) {
+// ParChunks calls f(lo, hi) for consecutive chunks of [0, n) on all cores.  A panic inside f
+// is caught and returned (first one) together with the chunk start.
+func ParChunks(n, chunk uint64, f func(lo, hi uint64)) (panicAt uint64, panicErr error) {
+	var pmu sync.Mutex
+	g := f
+	f = func(lo, hi uint64) {
+		defer func() {
+			if p := recover(); p != nil {
+				pmu.Lock()
+				if panicErr == nil || lo < panicAt {
+					panicAt, panicErr = lo, fmt.Errorf("panic: %v", p)
+				}
+				pmu.Unlock()
+			}
+		}()
+		g(lo, hi)
+	}
 	workers := runtime.GOMAXPROCS(0)
 	var next uint64
 	var mu sync.Mutex
@@ -63,4 +78,5 @@ func ParChunks(n, chunk uint64, f func(lo, hi uint64)) {
 		}()
 	}
 	wg.Wait()
+	return
 }
